@@ -57,6 +57,10 @@ def cases(rng, tier):
         for red in rng.sample(RED, 3):
             out.append({"kind": "reduce", "a": a, "f": red, "dta": rng.choice(gens.DTYPES)})
         out.append({"kind": "sum", "a": a, "dta": "int64"})
+        # a reduction of a DERIVED array: a scalar comparison / concatenation keeps the operand's run boundaries, so neighbouring
+        # runs of the result may hold equal values
+        out.append({"kind": "reduce", "a": a, "f": rng.choice(["any", "all", "max", "sum", "np.any", "np.all"]), "dta": rng.choice(["int64", "uint8", "float64"]),
+                    "derive": rng.choice(["gt", "ne", "le", "concat"]), "t": rng.choice([-1, 0, 1, 2, 3])})
     for _ in range(400 if tier == "quick" else 6000):
         n = rng.randint(1, 30)
         a = rlgen.array_random(rng, n)[:n]; a = (a + [0] * n)[:n]
@@ -71,6 +75,18 @@ def cases(rng, tier):
         if rng.random() < 0.3:
             out.append({"kind": "reduce", "a": a, "f": rng.choice(RED), "dta": rng.choice(gens.DTYPES)})
     return out
+
+
+def _derive_rl(p, x, np_):
+    """the same derivation on a RunLengthArray (implementation) or on the dense array (reference)"""
+    d, t = p["derive"], p["t"]
+    if d == "gt":
+        return x > t
+    if d == "ne":
+        return x != t
+    if d == "le":
+        return x <= t
+    return np_.concatenate([x, x])
 
 
 def key(p):
@@ -127,6 +143,8 @@ def run_impl(p):
             xe, xv = x._events.copy(), np.asarray(x._values).copy()
             if k == "sum":
                 return int(x.sum())
+            if k == "reduce" and "derive" in p:
+                x = _derive_rl(p, x, np)
             if k == "reduce":
                 fn = p["f"]
                 if fn == "histogram":
@@ -161,6 +179,8 @@ def oracle(p):
             a = _vals(p["a"], p["dta"])
             if k == "sum":
                 return canon(int(a.sum()))
+            if k == "reduce" and "derive" in p:
+                a = _derive_rl(p, a, np)
             if k == "reduce":
                 fn = p["f"]
                 if fn == "histogram":
